@@ -1,4 +1,5 @@
 import BeyondVerif.Model.ListenKinds
+import BeyondVerif.Generated.LightSrcF
 import BeyondVerif.Drv.Util
 namespace BeyondVerif.Drv.C10
 open BeyondVerif BeyondVerif.Drv BeyondVerif.Listen
@@ -87,10 +88,49 @@ def visOp (args : List String) : String :=
     | _, _, _, _ => "bad-op"
   | _ => "bad-op"
 
+/-- labels travel with `_` for the space -/
+def unLabel (s : String) : String := s.replace "_" " "
+
+/-- `c10e <labels|-> <samples> <own A B C D> <listeners…>` : `events_iterator(iter(…), *labels)`; labels separated by `,` -/
+def eventsOp (args : List String) : String :=
+  match args with
+  | labs :: s :: a :: b :: c :: d :: rest =>
+    match parseInts? s, parseChan? a b c d, parseSpecs? rest with
+    | some samples, some own, some specs =>
+      let labels := if labs = "-" then [] else (labs.splitOn ",").map unLabel
+      joinWith ";" ((Listen.eventsIterator labels (Listen.iterS own specs (specs.map (fun _ => none)) samples)).map showItem)
+    | _, _, _ => "bad-op"
+  | _ => "bad-op"
+
+/-- `c10f <label> <offset> <samples> <own A B C D> <listeners…>` : `find_event(iter(…), label, offset)` -/
+def findOp (args : List String) : String :=
+  match args with
+  | lab :: off :: s :: a :: b :: c :: d :: rest =>
+    match off.toInt?, parseInts? s, parseChan? a b c d, parseSpecs? rest with
+    | some off, some samples, some own, some specs =>
+      match Listen.findEvent (Listen.iterS own specs (specs.map (fun _ => none)) samples) (unLabel lab) off with
+      | some it => showItem it
+      | none => "runtime-error"
+    | _, _, _, _ => "bad-op"
+  | _ => "bad-op"
+
+/-- `c10l <penumbra 0|1> <rsun> <rbody> <|x_sun|> <|x_sat|> <x_sun·x_sat>` (floats as bit patterns) :
+`LightListener.__call__` after its geometric inputs -/
+def lightOp (args : List String) : String :=
+  match args with
+  | [pen, a, b, c, d, e] =>
+    match fOfStr? a, fOfStr? b, fOfStr? c, fOfStr? d, fOfStr? e with
+    | some rsun, some rbody, some nsun, some nsat, some dot => fToStr (F.lightValue (pen == "1") rsun rbody nsun nsat dot)
+    | _, _, _, _, _ => "bad-op"
+  | _ => "bad-op"
+
 def handle : List String → Option String
   | "c10v" :: args => some (visOp args)
   | "c10" :: args => some (iterOp args)
   | "c10b" :: args => some (bisectOp args)
+  | "c10e" :: args => some (eventsOp args)
+  | "c10f" :: args => some (findOp args)
+  | "c10l" :: args => some (lightOp args)
   | _ => none
 
 end BeyondVerif.Drv.C10
